@@ -1,7 +1,7 @@
 #!/bin/bash
 # tools/verify_seeded.sh <PROP> <1|2>  - independent confirmation of a sub-agent's mutant in its scratch worktree:
 # patch applies to /repo HEAD, test-suite passes with it, demo fails with it and passes without it.
-P=$1; N=$2; W=/tmp/wt-$P
+P=$1; N=$2; W=${WTBASE:-/tmp/wt}-$P
 D=$W/MUTANT.diff; DEMO=$(ls $W/demo.sh $W/demo.py 2>/dev/null | head -1)
 [ "$N" = 2 ] && { D=$W/MUTANT2.diff; DEMO=$(ls $W/demo2.sh $W/demo2.py 2>/dev/null | head -1); }
 [ -f "$D" ] || { echo "no diff $D"; exit 2; }
